@@ -10,7 +10,7 @@
 // except according to those terms.
 
 use crate::client::{MetricBackend, StatsdClient};
-use crate::types::{Metric, MetricError, MetricResult};
+use crate::types::{ErrorKind, Metric, MetricError, MetricResult};
 use std::fmt::{self, Write};
 use std::marker::PhantomData;
 
@@ -381,6 +381,15 @@ where
     T: Metric + From<String>,
 {
     pub(crate) fn from_fmt(formatter: MetricFormatter<'m>, client: &'c StatsdClient) -> Self {
+        // A metric must carry at least one value: an empty list of packed
+        // values would otherwise be rendered as a malformed `key:|type` line.
+        if formatter.val.count() == 0 {
+            return Self::from_error(
+                MetricError::from((ErrorKind::InvalidInput, "empty packed value")),
+                client,
+            );
+        }
+
         MetricBuilder {
             repr: BuilderRepr::Success(formatter, client),
             type_: PhantomData,
